@@ -28,6 +28,11 @@ DEVS = [("KMEANS_INIT_ALIASED_AT_ZERO_ITER", "kmeans"), ("MAP_SHARES_PRIOR_ARRAY
         ("SCORE_POOLS_IN_PLACE", "isv"), ("FIT_CENTRES_X_IN_PLACE", "linear"), ("IVECTOR_ESTEP_IN_PLACE", "ivector")]
 CELLS = ["X", "y", "init", "mm", "z", "s1n", "s1px", "s1pxx", "s2n", "s2px", "s2pxx", "pm", "pv", "pw"]
 NSTAT = 8
+OPS = ["KMeansFit", "KMeansTransform", "KMeansPredict", "KMeansVarWeights", "GmmFitML", "MapConstruct", "GmmFitMAP",
+       "GmmAccStats", "GmmTransform", "GmmLogLikelihood", "StatsAdd", "StatsIAdd", "LinearScoring", "FaFit",
+       "FaFitUsingArray", "FaEnroll", "FaEnrollUsingArray", "FaScore", "FaScoreUsingArray", "FaEstimateX", "FaEstimateUx",
+       "IsvTransform", "IvFit", "IvProject", "IvTransform", "WccnFit", "WccnTransform", "WhiteningFit",
+       "WhiteningTransform", "CallerOverwrites"]
 
 
 def build(fams, kinds, maxlen, maxow, dev=()):
@@ -396,6 +401,21 @@ def run(ck):
             prefixes.setdefault(key([b["fam"], b["kind"], [[s["op"], s["arg"], s["form"], s["cell"], s["m"]] for s in b["hist"]]]), b)
     behs = [prefixes[k] for k in sorted(prefixes)]
     ck.extra["behaviours_exported"] = len(r.records)
+    # self-checks against vacuity: every entry point occurs, results are reused, machines exist when the caller overwrites
+    calls = {}
+    reuse = over = 0
+    for rec in r.records:
+        for k, s in enumerate(rec["hist"]):
+            calls[s["op"]] = calls.get(s["op"], 0) + 1
+            reuse += bool(s["same"])
+            over += s["op"] == "CallerOverwrites" and any(t["rk"] == "model" for t in rec["hist"][:k])
+    missing = [o for o in OPS if o not in calls]
+    if missing or not reuse or not over:
+        raise tlc.MachineryError("Ownership: entry points never taken %s; reused results %d; overwrites after training %d"
+                                 % (missing, reuse, over))
+    ck.extra["calls_per_entry_point_in_exported_behaviours"] = dict(sorted(calls.items()))
+    ck.extra["steps_repeating_an_earlier_call"] = reuse
+    ck.extra["overwrites_after_training"] = over
     ck.extra["behaviours_with_prefixes"] = len(behs)
     nested = nested_score_supported(em, ck.seed + 19)
     for fam, v in nested.items():
